@@ -371,36 +371,85 @@ def dispatch(R):
         ok = isinstance(ops_def[0].ast.value, ast.Attribute) and ops_def[0].ast.value.attr == 'opcode' and U(o) == 'frames[0]'
     R.ob('C01.dispatch', 'message opcode is the first frame\'s opcode', ok, 'opcode = %s' % (U(ops_def[0].ast.value) if ops_def else None),
          func=q, node=(ops_def[0].ast if ops_def else None))
-    # WebSocket.feed dispatch
+    # WebSocket.feed dispatch - constructor-site based, so that the chain may live in feed() itself or in a helper
+    # whose result feed() yields
+    from .common import otext, facts, deep_origin
     q2 = WS + '.feed'
     g2 = R.cfg(q2)
     rd2 = ReachingDefs(g2)
     seen = set()
+    # helpers whose result is yielded by feed
+    yielded_helpers = {}
     for y in g2.yields():
         if any(fr.kind == 'handler' for fr in y.frames):
             continue
-        lits = {(t, p) for (t, p, _) in guards_of(g2, y)}
-        props = [t.split('.')[1] for (t, p) in lits if p and t.startswith('message.is_')]
-        if len(props) != 1:
-            continue
-        prop = props[0]
-        seen.add(prop)
-        row = [r for r in opv.values() if r[3] == prop][0]
-        cls, attr, ev, _ = row
-        if prop == 'is_close':
-            # delegated: for event in self._on_close(message): yield event
-            ds = rd2.defs_at(y, U(y.ast.value)) if isinstance(y.ast.value, ast.Name) else set()
-            ok = bool(ds) and all(d.kind == 'for' and isinstance(d.ast.iter, ast.Call) and
-                                  R.types.resolves_to(d.ast.iter, g2.ctx, WS + '._on_close') and
-                                  [U(a) for a in d.ast.iter.args] == ['message'] for d in ds)
-            R.ob('C01.dispatch', 'Close messages go through _on_close(message)', ok, 'close branch yields %s' % y.text(), func=q2, node=y.ast)
-            continue
         v = y.ast.value
-        ok = isinstance(v, ast.Call) and any(t.kind == 'ctor' and t.cls == 'events.' + ev for t in R.types.call_targets(v, g2.ctx)) \
-            and len(v.args) == 1 and U(v.args[0]) == 'message.' + attr
-        R.ob('C01.dispatch', '%s -> events.%s(message.%s)' % (prop, ev, attr), ok, 'branch %s yields %s' % (prop, U(v)), func=q2, node=v)
-        once = y not in g2.succ_reach(y, avoid=set(n for n in g2.live_nodes() if n.kind == 'for'), skip_edge=nx)
-        R.ob('C01.dispatch', '%s: one event per message' % prop, once, 'branch %s can yield twice for one message' % prop, func=q2, node=v)
+        o, on = rd2.origin(y, v) if isinstance(v, ast.Name) else (v, y)
+        if isinstance(o, ast.Call):
+            for t in R.types.call_targets(o, g2.ctx):
+                if t.kind == 'func' and t.func.cls is not None and t.func.cls.qual == WS and not t.func.is_generator:
+                    yielded_helpers[t.func.qual] = (y, o)
+    for op, (cls, attr, ev, prop) in opv.items():
+        if prop == 'is_close':
+            continue
+        sites = []
+        for cx in R.types.ctxs.values():
+            if cx.recv != WS or cx.func.parent is not None or cx.func.cls is None or cx.func.cls.qual != WS:
+                continue
+            gg = R.cfg(cx.func.qual, cx.recv)
+            for n in gg.live_nodes():
+                for c in n.calls:
+                    if any(t.kind == 'ctor' and t.cls == 'events.' + ev for t in R.types.call_targets(c, gg.ctx)):
+                        sites.append((cx.func, gg, n, c))
+        R.ob('C01.dispatch', 'one construction site for events.%s' % ev, len(sites) == 1,
+             '%d construction sites of events.%s in WebSocket' % (len(sites), ev), func=q2, node=(sites[0][3] if sites else None),
+             construct='events.%s sites' % ev)
+        for (fi, gg, n, c) in sites:
+            fx = facts(R, gg, n)
+            mvar = None
+            a0 = c.args[0] if c.args else None
+            txt = otext(R, gg, n, a0) if a0 is not None else ''
+            ok_arg = len(c.args) == 1 and txt.endswith('.' + attr) and '.' in txt
+            mvar = txt.rsplit('.', 1)[0] if ok_arg else 'message'
+            ok_guard = ('%s.%s' % (mvar, prop), True) in fx or ('%s.opcode == Opcode.%s' % (mvar, op), True) in fx
+            reaches = False
+            if fi.qual == q2 and n.kind == 'yield' and n.ast.value is c:
+                reaches = True
+            elif fi.qual == q2 and n.kind == 'stmt':
+                # event bound to a local which is then yielded
+                reaches = any(rd2.origin(y, y.ast.value)[0] is c for y in g2.yields() if isinstance(y.ast.value, ast.Name))
+            elif fi.qual in yielded_helpers and n.kind == 'stmt' and isinstance(n.ast, ast.Return) and n.ast.value is c:
+                hy, hc = yielded_helpers[fi.qual]
+                reaches = bool(hc.args) and otext(R, g2, hy, hc.args[0]) == 'message'
+            R.ob('C01.dispatch', '%s -> events.%s(message.%s)' % (prop, ev, attr), ok_arg and ok_guard and reaches,
+                 'events.%s built as %s under %s (guarded by %s: %s; reaches a yield of feed(): %s)' % (
+                     ev, U(c), fi.qual, prop, ok_guard, reaches), func=fi, node=c)
+            if ok_arg and ok_guard and reaches:
+                seen.add(prop)
+    # the Close branch: delegated to _on_close(message)
+    for y in g2.yields():
+        if any(fr.kind == 'handler' for fr in y.frames) or not isinstance(y.ast.value, ast.Name):
+            continue
+        ds = rd2.defs_at(y, y.ast.value.id)
+        if ds and all(d.kind == 'for' and isinstance(d.ast.iter, ast.Call) and
+                      R.types.resolves_to(d.ast.iter, g2.ctx, WS + '._on_close') for d in ds):
+            fx = facts(R, g2, y)
+            ok = all([otext(R, g2, d, a) for a in d.ast.iter.args] == ['message'] for d in ds) and \
+                (('message.is_close', True) in fx or ('message.opcode == Opcode.CLOSE', True) in fx)
+            R.ob('C01.dispatch', 'Close messages go through _on_close(message)', ok, 'close branch yields %s under %s' % (
+                y.text(), sorted(t for (t, p) in fx if p)[:4]), func=q2, node=y.ast)
+            if ok:
+                seen.add('is_close')
+    # one event per message: no event yield can be repeated without fetching the next message
+    msg_loops = [n for n in g2.live_nodes() if n.kind == 'for' and any(
+        isinstance(t, str) and t.startswith('gen:stream.WebsocketStream.feed') for t in R.types.expr(n.ast.iter, g2.ctx))]
+    for y in g2.yields():
+        if any(fr.kind == 'handler' for fr in y.frames):
+            continue
+        inner = [n for n in g2.live_nodes() if n.kind == 'for' and n not in msg_loops]
+        again = y in g2.succ_reach(y, avoid=set(msg_loops) | set(inner), skip_edge=nx)
+        R.ob('C01.dispatch', 'one event per message at `%s`' % y.text()[:40], not again,
+             'the same message can be reported twice', func=q2, node=y.ast)
     R.ob('C01.dispatch', 'every message class has a dispatch branch', seen == {r[3] for r in opv.values()},
          'dispatch branches present: %s' % sorted(seen), func=q2, node=None, construct='dispatch branches %s' % sorted(seen))
     # events keep the payload: Event classes store the constructor argument unchanged
@@ -415,7 +464,8 @@ def dispatch(R):
     g3 = R.cfg(q3)
     for y in g3.yields():
         v = y.ast.value
-        ok = isinstance(v, ast.Call) and [U(a) for a in v.args] == ['message.code', 'message.reason']
+        from .common import otext
+        ok = isinstance(v, ast.Call) and [otext(R, g3, y, a) for a in v.args] == ['message.code', 'message.reason']
         R.ob('C01.dispatch', '_on_close events carry the message\'s code and reason', ok, 'yield %s' % U(v), func=q3, node=v)
 
 
@@ -424,14 +474,13 @@ def length(R):
     q = 'frame_parser.FrameParser.parse'
     g = R.cfg(q, CFP)
     rd = ReachingDefs(g)
-    reads = [y for y in g.yields() if isinstance(y.stmt, ast.Assign) and isinstance(y.stmt.targets[0], ast.Attribute)
-             and y.stmt.targets[0].attr == 'payload' and isinstance(y.ast.value, ast.Call)]
+    reads = C05._payload_reads(R, g, rd)
     need(len(reads) >= 2, 'FrameParser.parse: payload reads not found')
     lendefs = None
-    for y in reads:
-        a = y.ast.value.args[0] if y.ast.value.args else None
+    for (site, call, extra, y) in reads:
+        a = call.args[0] if call.args else None
         need(isinstance(a, ast.Name), 'payload read count is not a plain variable: %s' % U(a))
-        ds = rd.defs_at(y, a.id)
+        ds = rd.defs_at(site, a.id)
         kinds = []
         ok = True
         for d in ds:
@@ -462,6 +511,9 @@ def join(R):
             ok = U(v.args[0]) == frames and is_param(rd, d, v.args[0], frames)
             R.ob('C01.join', 'inflate arm receives the whole fragment list', ok, 'decompress_frames(%s)' % U(v.args[0]), func=f, node=v)
             continue
+        from .common import deep_origin
+        if isinstance(v, ast.Call) and U(v.func) != "b''.join":
+            v = deep_origin(R, g, d, v)
         ok = isinstance(v, ast.Call) and U(v.func) == "b''.join" and len(v.args) == 1 and isinstance(v.args[0], (ast.GeneratorExp, ast.ListComp))
         if ok:
             ge = v.args[0]
@@ -471,7 +523,7 @@ def join(R):
                 inner = elt.args[0]
             else:
                 inner = elt
-            ok = len(ge.generators) == 1 and not gen.ifs and U(gen.iter) == frames and is_param(rd, d, gen.iter, frames) \
+            ok = len(ge.generators) == 1 and not gen.ifs and U(gen.iter) == frames \
                 and U(inner) == '%s.payload' % U(gen.target)
         R.ob('C01.join', 'payload = in-order join of every fragment', ok, 'payload = %s' % U(v), func=f, node=v)
         fresh = isinstance(v, ast.Call) and U(v.func) == "b''.join"
